@@ -43,6 +43,8 @@ structure Esc where
   actionEdits : List (EditKey × List String) := []
   tmplEdits : List (EditKey × String) := []
   textEdits : List (EditKey × Bytes) := []
+  /-- copies of parse trees taken before commit first rewrote them (shared by reference with scratch escapers) -/
+  pristine : List (String × Tree) := []
   deriving Inhabited
 
 def alookup {β} (l : List (String × β)) (k : String) : Option β :=
@@ -190,9 +192,10 @@ def escapeNode (env : Env) : Nat → String → Esc → Ctx → Node → Out (Es
         let e ← e.editTmpl (tn, id) dname
         pure (e, c')
       else pure (e, c')
-    | .brk _ => .panic "escaping {{break}} is unimplemented"
-    | .cont _ => .panic "escaping {{continue}} is unimplemented"
-    | .comment _ => .panic "escaping comment is unimplemented"
+    -- nodes the escaper does not know: an analysis error (it used to be a Go panic)
+    | .brk _ => .ok (e, Ctx.errorCtx .escapeAction)
+    | .cont _ => .ok (e, Ctx.errorCtx .escapeAction)
+    | .comment _ => .ok (e, Ctx.errorCtx .escapeAction)
 
 def escapeList (env : Env) : Nat → String → Esc → Ctx → NodeList → Out (Esc × Ctx)
   | 0, _, _, _, _ => .fuel
@@ -210,7 +213,7 @@ def escapeBranch (env : Env) : Nat → String → Esc → Ctx → NodeList → N
     -- range: re-entry check on a scratch escaper whose results are always dropped (filter = nil)
     let c0r : Out (Option Ctx) :=
       if isRange && c0.state != .error then do
-        let (_, c1) ← escapeList env f tn { output := e.output } c0 t
+        let (_, c1) ← escapeList env f tn { output := e.output, pristine := e.pristine } c0 t
         let j := join c0 c1
         pure (some j)
       else pure none
@@ -235,33 +238,34 @@ def escapeTree (env : Env) : Nat → Esc → Ctx → String → Out (Esc × Ctx 
     | none =>
       match e.template env name with
       | none => .ok (e, Ctx.errorCtx .noSuchTemplate, dname)
-      | some t =>
+      | some none => .ok (e, Ctx.errorCtx .noSuchTemplate, dname)   -- no parse tree: incomplete template
+      | some (some tr) =>
         if dname != name then
           match e.template env dname with
           | some dt => do
             let (e, c') ← computeOutCtx env f e c dname dt
             pure (e, c', dname)
           | none =>
-            match t with
-            | none => .panic "nil pointer dereference: Copy of a nil Tree (dt.Tree.Name)"
-            | some tr =>
-              let dt : Tree := { tr with name := dname }
-              let e := { e with derived := aset e.derived dname dt }
-              do
-                let (e, c') ← computeOutCtx env f e c dname (some dt)
-                pure (e, c', dname)
+            -- derived templates are copied from the pristine tree when the template was already rewritten
+            let src := (alookup e.pristine name).getD tr
+            let dt : Tree := { src with name := dname }
+            let e := { e with derived := aset e.derived dname dt }
+            do
+              let (e, c') ← computeOutCtx env f e c dname (some dt)
+              pure (e, c', dname)
         else do
-          let (e, c') ← computeOutCtx env f e c dname t
+          let (e, c') ← computeOutCtx env f e c dname (some tr)
           pure (e, c', dname)
 
 def computeOutCtx (env : Env) : Nat → Esc → Ctx → String → Option Tree → Out (Esc × Ctx)
   | 0, _, _, _, _ => .fuel
   | f+1, e, c, tname, t => do
     let (e, c1, ok) ← escapeTemplateBody env f e c tname t
-    if ok then pure (e, c1)
+    -- on success the computed output context is memoized (e.output[t.Name()] = c1)
+    if ok then pure ({ e with output := aset e.output tname c1 }, c1)
     else do
       let (e, c2, ok2) ← escapeTemplateBody env f e c1 tname t
-      if ok2 then pure (e, c2)
+      if ok2 then pure ({ e with output := aset e.output tname c2 }, c2)
       else if c1.state != .error then pure (e, Ctx.errorCtx .outputContext)
       else pure (e, c1)
 
@@ -272,13 +276,14 @@ def escapeTemplateBody (env : Env) : Nat → Esc → Ctx → String → Option T
     match t with
     | none => .panic "nil pointer dereference: t.Tree.Root of a nil Tree"
     | some tr => do
-      let (e1, c1) ← escapeList env f tname { output := e.output } c tr.root
+      let (e1, c1) ← escapeList env f tname { output := e.output, pristine := e.pristine } c tr.root
       let ok := c1.state != .error && (!e1.called.contains tname || c.eq c1)
       if ok then do
         let ae ← mergeEdits e.actionEdits e1.actionEdits
         let te ← mergeEdits e.tmplEdits e1.tmplEdits
         let xe ← mergeEdits e.textEdits e1.textEdits
-        let e := { output := e1.output.foldl (fun acc p => aset acc p.1 p.2) e.output,
+        let e := { pristine := e.pristine,
+                   output := e1.output.foldl (fun acc p => aset acc p.1 p.2) e.output,
                    derived := e1.derived.foldl (fun acc p => aset acc p.1 p.2) e.derived,
                    called := e1.called.foldl (fun acc n => if acc.contains n then acc else acc ++ [n]) e.called,
                    actionEdits := ae, tmplEdits := te, textEdits := xe }
@@ -358,6 +363,16 @@ def commit (text : TextSet) (e : Esc) : Out (TextSet × Esc) := do
   -- `e.template(name).Funcs(funcs)` for every memo entry: nil dereference if the template vanished
   let allPresent := e.output.all fun p => (text.lookup p.1).isSome || (alookup e.derived p.1).isSome
   if !allPresent then .panic "nil pointer dereference: e.template(name).Funcs in commit" else
+  -- snapshot every analysed template that has not been rewritten yet
+  let pristine := e.output.foldl (fun (acc : List (String × Tree)) p =>
+      if (alookup acc p.1).isSome then acc
+      else match text.lookup p.1 with
+        | some (some t) => acc ++ [(p.1, t)]
+        | some none => acc
+        | none => match alookup e.derived p.1 with
+          | some t => acc ++ [(p.1, t)]
+          | none => acc) e.pristine
+  let e := { e with pristine := pristine }
   let text1 := e.derived.foldl (fun ts (p : String × Tree) =>
       match ts.lookup p.1 with
       | some (some _) => if p.2.root.isEmpty then ts else ts.set p.1 (some p.2)
